@@ -588,13 +588,30 @@ Example C16_nonvacuous_lossy :
              ("b"%string, None); ("b"%string, Some (nv_d 7)); ("zz"%string, Some (nv_mark "barrier-0"))] in
   let em := [("a"%string, None, Some (nv_d 1)); ("b"%string, None, Some (nv_d 5)); ("pp"%string, None, Some (nv_mark "plug-0"));
              ("b"%string, Some (nv_d 5), Some (nv_d 7)); ("zz"%string, None, Some (nv_mark "barrier-0"))] in
-  let c := KG true (KCollL (EAnd [VFloat 0 (1#2)]) false None init [ph] em) in
+  let c := KG true (KCollL (EAnd [VFloat 0 (1#2)]) false None init [ph] em [1; 1; 1; 4; 1]) in
   map Change.ckind (merged_changes init [ph]) = [1; 4; 4; 1] /\
   (agrees c && C16_guard c && C16_ok c) = true /\
+  (* the REPLACE of "b" reported as an UPDATE is not the model's stream *)
+  agrees (KG true (KCollL (EAnd [VFloat 0 (1#2)]) false None init [ph] em [1; 1; 1; 2; 1])) = false /\
   (* the same stream with the REPLACE of "a" delivered as well is rejected by the oracle *)
   C16_ok (KCollL (EAnd [VFloat 0 (1#2)]) false None init [ph]
-            (firstn 3 em ++ [("a"%string, Some (nv_d 1), Some (nv_d (5#4)))] ++ skipn 3 em)) = false.
+            (firstn 3 em ++ [("a"%string, Some (nv_d 1), Some (nv_d (5#4)))] ++ skipn 3 em) [1; 1; 1; 4; 4; 1]) = false.
 Proof. repeat split; vm_compute; reflexivity. Qed.
+
+(* REPLACE as a kind of its own: the loop that carries the ChangeType each change goes out with (the merge stage's
+   ADD / UPDATE / REMOVE / REPLACE, rewritten to ADD / REMOVE where include says the item came into / left the
+   included set) delivers exactly the changes of the held-map model of record, in which a REPLACE is carried as an
+   update -- so every C16_collection_* theorem speaks about the kind-carrying loop too *)
+Theorem C16_collection_lossy_kinds_erase :
+  forall (rmask : Type) (rf : rmask -> cval -> cval) cmp s (ro : ropts cval rmask) evs,
+  map fst (pull_collection_held_k rmask rf cmp s ro evs) = pull_collection_held rf (Some cmp) s ro (map fst evs).
+Proof. exact pull_collection_held_k_erase. Qed.
+Theorem C16_collection_lossy_kinds_model_erase : forall e uo thr init phases,
+  map triple_of (map fst (pull_collection_held_k unit id_filter (model_e e) (coll_state init) (coll_ro uo thr) (merged_events_k init phases)))
+  = coll_lossy_model e uo thr init phases.
+Proof.
+  intros. unfold coll_lossy_model. rewrite pull_collection_held_k_erase, merged_events_k_erase. reflexivity.
+Qed.
 
 (* the hypotheses of C16_judge_sound hold of a non-trivial pair case and of a drifting stream *)
 Example C16_nonvacuous_judge_sound :
@@ -674,6 +691,8 @@ Print Assumptions C16_whole_message_is_ideal.
 Print Assumptions C16_collection_lossy_history_chained.
 Print Assumptions C16_collection_lossy_delivers_iff_not_equivalent_to_held.
 Print Assumptions C16_collection_lossy_seeded.
+Print Assumptions C16_collection_lossy_kinds_erase.
+Print Assumptions C16_collection_lossy_kinds_model_erase.
 Print Assumptions C16_tree_verdict.
 Print Assumptions C16_tree_answers_iff_some_leaf_applies.
 Print Assumptions C16_and_tree_is_conj_of_applicable_leaves.
